@@ -145,8 +145,11 @@ def ref_experiment_group(kw, pkg, defined, other_names):
 NAME_VALS = ['"t"', MISSING, "None", "5", '"a b"', '""', '"a\\n"', '"a.b"', '["t"]', '"t-2_x"']
 RUN_VALS = ['"true"', MISSING, "None", "3", '["true"]', '"./x.sh --flag"']
 PAR_VALS = [MISSING, "True", "False", "None", "1", '"yes"']
-ARGS_VALS = [MISSING, "[]", '["a", 1, 1.5, True]', "None", '"abc"', '("a",)', "[None]", '[["x"]]', '[{"a": 1}]']
-OPT_VALS = [MISSING, "{}", '{"k": "v", "n": 1, "f": 0.5, "b": False}', "None", '[("k", "v")]', '{1: "v"}', '{"k": None}', '{"k": [1]}']
+ARGS_VALS = [MISSING, "[]", '["a", 1, 1.5, True]', "None", '"abc"', '("a",)', "[None]", '[["x"]]', '[{"a": 1}]',
+             "[2j]", '[__import__("fractions").Fraction(1, 3)]', '[b"x"]']
+OPT_VALS = [MISSING, "{}", '{"k": "v", "n": 1, "f": 0.5, "b": False}', "None", '[("k", "v")]', '{1: "v"}', '{"k": None}', '{"k": [1]}',
+            # numbers that are not int/float/bool are not primitive values
+            '{"k": 2j}', '{"k": __import__("fractions").Fraction(1, 3)}', '{"k": __import__("decimal").Decimal("0.1")}', '{"k": b"x"}']
 DEPS_VALS = [MISSING, "[]", '[":d1"]', '["//:d1", "//p:d2"]', "None", '":d1"', '(":d1",)', "[1]", '["d1"]', '[":a b"]', '{":d1"}', '{":d1": 1}', '()', '""',
              '["//:d1", "//:d1/"]', '["//p:d2", "//p/:d2"]',
              '["//x y:d1"]', '["p:d2"]', '[":d1", ":d1"]', '[":d1", "//:d1"]', '[":nope"]', '[":d1\\n"]']
@@ -263,6 +266,11 @@ def gen_sources(tier):
         ("include-missing", {"COND": 'include("nope.cond")\nrun_command(name="t", run="true")\n'}, False),
         ("include-badext", {"COND": 'include("common.py")\nrun_command(name="t", run="true")\n', "common.py": "X = 3\n"}, False),
         ("include-outside", {"COND": 'include("../outside.cond")\nrun_command(name="t", run="true")\n'}, False),
+        # a sibling of the project directory whose NAME merely starts with the project directory's name is outside, too
+        ("include-outside-prefix-sibling", {"COND": 'include("../c15-shared/common.cond")\nrun_command(name="t", run="true")\n'}, False),
+        ("include-outside-prefix-sibling-rooted", {"COND": 'include("//../c15-shared/common.cond")\nrun_command(name="t", run="true")\n'}, False),
+        ("include-outside-prefix-sibling2", {"COND": 'run_command(name="t", run="true", deps=["//p:d"])\n',
+                                             "p/COND": 'include("../../c152/common.cond")\nrun_command(name="d", run="true")\n'}, False),
         ("include-defines-task", {"COND": 'include("common.cond")\nrun_command(name="t", run="true")\n',
                                   "common.cond": 'run_command(name="z", run="true")\n'}, False),
         ("include-includes", {"COND": 'include("common.cond")\nrun_command(name="t", run="true")\n',
@@ -307,7 +315,7 @@ def gen_sources(tier):
     for tag, files, expect in specials:
         files = dict(files)
         yield {"tag": "special:" + tag, "files": files, "target": "//:t", "expect": expect, "nontrivial": True,
-               "outside": tag == "include-outside",
+               "outside": tag.startswith("include-outside"),
                "must_name": {"include-defines-task": "common.cond", "include-includes": "common.cond", "include-raises": "common.cond",
                              "include-syntax": "common.cond", "include-bad-in-dep-file": "common.cond", "dep-file-bad-task": "p/COND",
                              "include-same-string-second-raises": "p/common.cond", "include-same-string-first-bad": "q/common.cond",
@@ -331,8 +339,10 @@ def run_one(case, found, res):
         res["evals"] += 1
         root = driver.fresh_project(files, name="c15")
         if case.get("outside"):
-            with open(os.path.join(os.path.dirname(root), "outside.cond"), "w") as f:
-                f.write("X = 1\n")
+            for rel in ("outside.cond", "c15-shared/common.cond", "c152/common.cond"):
+                os.makedirs(os.path.dirname(os.path.join(os.path.dirname(root), rel)), exist_ok=True)
+                with open(os.path.join(os.path.dirname(root), rel), "w") as f:
+                    f.write("X = 1\n")
         vk = vkmod.VK(project_root=root)
         r = driver.run_cli(["run", case["target"]] + flags, root, vk=vk, git=fakegit.NO_GIT, clock=driver.Clock())
         spawns = [e for e in vk.log if e[0] == "spawn"]
